@@ -173,3 +173,14 @@ FOLD_OPERANDS = [  # (value, (signed, width)) : values around the width boundari
     (-1, (False, 32)),  # what the unary folder leaves for -1U : value not yet reduced, type unsigned
 ]
 FOLD_OPERANDS_QUICK = [FOLD_OPERANDS[i] for i in (1, 2, 4, 5, 6, 7, 8, 12, 16)]
+
+
+# ---------------------------------------------------------------------------------------------------------------------
+# Signatures of the QEMU bit helpers the macro table maps to IL macros (qemu/include/qemu/bitops.h, bswap.h): the IL
+# macro of the same name takes and yields bitvectors of exactly these widths.
+QEMU_BIT_HELPERS = {
+    "bswap16": ("uint16_t", ["uint16_t"]), "bswap32": ("uint32_t", ["uint32_t"]), "bswap64": ("uint64_t", ["uint64_t"]),
+    "extract32": ("uint32_t", ["uint32_t", "int32_t", "int32_t"]), "extract64": ("uint64_t", ["uint64_t", "int32_t", "int32_t"]),
+    "sextract64": ("int64_t", ["uint64_t", "int32_t", "int32_t"]),
+    "deposit32": ("uint32_t", ["uint32_t", "int32_t", "int32_t", "uint32_t"]), "deposit64": ("uint64_t", ["uint64_t", "int32_t", "int32_t", "uint64_t"]),
+}
